@@ -2,7 +2,7 @@
 Proof/YamlRoundTrip — lemmas for `loadRef (render s) = ok s.trees` (C14), by layer.
 -/
 import SuccinctlyVerif.Spec.YamlRef
-namespace SV.Yaml
+namespace SV.YamlRef
 
 /-! ## Byte layer: UTF-8 -/
 
@@ -1701,4 +1701,4 @@ theorem loadChars_blockSeq (m : Meta) (x : PNode) (r : PItems) (st : Nat) (h : (
   rfl
 
 
-end SV.Yaml
+end SV.YamlRef
